@@ -2,44 +2,24 @@ package main
 
 import (
 	"fmt"
+	"os"
+	"runtime/pprof"
 	"testing"
+	"time"
 )
 
-func collectVars(t *Term, seen map[*Term]bool, out map[string]bool) {
-	if seen[t] {
-		return
-	}
-	seen[t] = true
-	if t.Op == "var" && t.S == SErr {
-		out[t.Name] = true
-	}
-	for _, a := range t.Args {
-		collectVars(a, seen, out)
-	}
-}
-
-func TestDebugC03Item(t *testing.T) {
+func TestDebugC09(t *testing.T) {
+	go func() { time.Sleep(45 * time.Second); pprof.StopCPUProfile(); fmt.Println("TIMEOUT terms", termSeq, "feas", curExec.feasQueries, "acts", curExec.actSeq); os.Exit(3) }()
+	f, _ := os.Create("/tmp/c09.prof")
+	pprof.StartCPUProfile(f)
 	w, _ := LoadWorld()
 	ex := w.NewExec()
-	installGobItemContracts(ex, w)
+	installEqContracts(ex)
 	st := newState()
 	T := w.Type("*Object")
 	iv, _, _ := ex.symItemOfType(T, "x")
-	r := ex.Call(st, w.Func("gobEncodeItem"), []Value{iv}, nil).(*TupleVal)
-	r2 := ex.Call(st, w.Func("gobDecodeItem"), []Value{r.V[0]}, nil).(*TupleVal)
-	out := map[string]bool{}
-	collectVars(r2.V[1].(*Term), map[*Term]bool{}, out)
-	fmt.Println("error sources in decode result:", out)
-	typ := Var("x.Type", SStr)
-	hyp := And(append([]*Term{ex.NoPanic(), st.pc, strIn(typ, []string{"", "Note", "Object"}), Neq(Var("x.ID", SStr), StrLit(""))}, ex.assumes...)...)
-	for n := range out {
-		e := Var(n, SErr)
-		sc := &Script{Asserts: []*Term{hyp, Eq(r2.V[1].(*Term), e)}}
-		if quickSat(sc.Render(allAxioms)) {
-			fmt.Println("FEASIBLE error:", n)
-		}
-	}
-	out2 := map[string]bool{}
-	collectVars(r.V[1].(*Term), map[*Term]bool{}, out2)
-	fmt.Println("error sources in encode result:", out2)
+	t0 := time.Now()
+	res := ex.Call(st, w.Func("ItemsEqual"), []Value{iv, iv}, nil).(*Term)
+	fmt.Println("done", time.Since(t0), termSeq, len(res.String()), "feas", ex.feasQueries, "acts", ex.actSeq)
+	pprof.StopCPUProfile()
 }
